@@ -536,6 +536,13 @@ func sshSanitizeFilePath(sandboxDir, filePath string) (string, error) {
 		return filePath, nil
 	}
 
+	// Compare absolute paths only: a relative sandbox made of ".." elements would otherwise accept
+	// "../../x", which has the prefix "../" but lies outside the sandbox.
+	sandboxDir, err := filepath.Abs(sandboxDir)
+	if err != nil {
+		return "", fmt.Errorf("unable to resolve the sandbox directory: %w", err)
+	}
+
 	// Clean and resolve the path relative to the sandbox directory
 	if !filepath.IsAbs(filePath) {
 		filePath = filepath.Join(sandboxDir, filePath)
